@@ -324,7 +324,7 @@ def ackq_lin(v, trials):
     tmp = tempfile.mkdtemp(prefix="verif-aql-")
     try:
         tf = os.path.join(tmp, "trace.ndjson")
-        p = core.run_harness(["ackqlin", "-seed", str(core.seed()), "-trials", str(trials), "-out", tf], timeout=900)
+        p = core.run_harness(["ackqlin", "-seed", str(core.seed()), "-trials", str(trials), "-big", "40000" if trials > 10000 else "0", "-out", tf], timeout=900)   # the trial with 40,000 requests in flight costs TLC minutes: thorough tier only
         if p.returncode != 0:
             raise Infra("ackqlin failed: %s" % p.stderr[-2000:])
         res = json.loads(p.stdout.strip().splitlines()[-1])
